@@ -138,11 +138,15 @@ def dist(f, t):
     return min(abs(f.t0 - t), abs(f.t1 - t))
 
 
-def run_population(ck, rng, scratch, tpl, files, time_cov, probes, use_model=True, tag="gen", ddirs=None):
+def run_population(ck, rng, scratch, tpl, files, time_cov, probes, use_model=True, tag="gen", ddirs=None, spelling=None):
     from typhon.files import FileSet
     from typhon.files.handlers.common import FileHandler
     root = tempfile.mkdtemp(dir=scratch)
+    cwd0 = os.getcwd()
+    if spelling is None:       # how the user wrote the template: absolute, or relative to the working directory
+        spelling = rng.choice(G.SPELLINGS)
     try:
+        os.chdir(root)         # relative templates are resolved against the working directory on every access
         if ddirs is None:
             ddirs = G.decoy_dirs(rng, tpl, files, rng.choice([0, 1, 3]))
         ids = G.build_tree(root, tpl, files, rng, ddirs=ddirs)
@@ -151,11 +155,11 @@ def run_population(ck, rng, scratch, tpl, files, time_cov, probes, use_model=Tru
             if p.get("emptydir") and tpl.dirs and tpl.is_temporal():
                 fake = G.File(-1, p["t"], p["t"], {u: G.USER_VALUES[u][0] for u in tpl.users()}, ["x"] * tpl.n_stars())
                 os.makedirs(os.path.join(root, *G.render(tpl, fake)[:-1]), exist_ok=True)
-        fs = G.make_fileset(root, tpl, time_cov, handler=FileHandler(reader=lambda info, **kw: os.fspath(info)))
+        fs = G.make_fileset(root, tpl, time_cov, spelling=spelling, handler=FileHandler(reader=lambda info, **kw: os.fspath(info)))
         paths_of = {i: p for p, i in ids.items()}
         honour = G.honours(tpl, files)
         base_case = {"op": "closest", "template": tpl.to_json(), "files": [f.to_json() for f in files],
-                     "time_cov_us": None if time_cov is None else time_cov // G.US, "decoy_dirs": ddirs}
+                     "time_cov_us": None if time_cov is None else time_cov // G.US, "decoy_dirs": ddirs, "spelling": spelling}
         for f in files:
             try:
                 info = fs.get_info(paths_of[f.id])
@@ -236,7 +240,7 @@ def run_population(ck, rng, scratch, tpl, files, time_cov, probes, use_model=Tru
                         (G.is_excluded(ex, set(p["xnames"]), p["xtimes"]) or not G.passes_filters(ex, p["filters"]))
                     sig = "closest-shortcut-excluded" if hit_exact else "other"
                     ck.violation(sig, what + f" on '{tpl.text()}'", case)
-            kindk = f"{tag}/{p['kind']}/{'onres' if p['onres'] else 'offres'}/{p['via']}/" + \
+            kindk = f"{tag}{'' if spelling == 'abs' else '-relpath'}/{p['kind']}/{'onres' if p['onres'] else 'offres'}/{p['via']}/" + \
                     ("err-" + got[4:] if got.startswith("err") else ("none" if got == "none" else
                      ("covering" if byid[int(got[3:])].t0 <= t <= byid[int(got[3:])].t1 else "nearest")))
             ck.case(key=(tpl.text(), G.us(t), json.dumps(case["probe"], sort_keys=True), len(files)) if (got.startswith("ok") and len(files) > 1) else None,
@@ -256,6 +260,7 @@ def run_population(ck, rng, scratch, tpl, files, time_cov, probes, use_model=Tru
                 elif m != code:
                     ck.count("diagnostic/another-covering-or-equidistant-file")
     finally:
+        os.chdir(cwd0)
         shutil.rmtree(root, ignore_errors=True)
 
 
@@ -325,7 +330,7 @@ def run_case_json(ck, c, scratch, use_model=True):
         p = C1.query_from_json(o)
         p["t"] = G.from_iso(o["t"])
         probes.append(p)
-    run_population(ck, random.Random(0), scratch, tpl, files, tc, probes, use_model, tag="corpus", ddirs=c.get("decoy_dirs") or [])
+    run_population(ck, random.Random(0), scratch, tpl, files, tc, probes, use_model, tag="corpus", ddirs=c.get("decoy_dirs") or [], spelling=c.get("spelling", "abs"))
 
 
 def explore(ck, n, scratch, use_model=True):
